@@ -41,7 +41,7 @@ pub fn run(args: &Args) {
             0 => "skip_rule_modifiers",
             1 => "rules_named_like_builtins",
             2 => "unicode_property_builtins",
-            3 | 4 => "optimizer_shapes",
+            3 | 4 | 5 => "optimizer_shapes",
             _ => "full",
         };
         let mut cfg = GenCfg::new(Profile::Full);
